@@ -516,6 +516,89 @@ def apply_rewrite(pieces, rule, pat_s, rep_s, count, file, applied):
         applied.add(rule, file, line, f"{pat_s} => {rep_s}")
 
 
+def n12_break_value(pieces, name, file, applied):
+    """`let NAME = loop { .. break E .. };` -> `let __brk; loop { .. { __brk = E; break; } .. } let NAME = __brk;`"""
+    si = sig(pieces)
+    hit = None
+    for k in range(len(si) - 4):
+        if [pieces[si[k + j]].text for j in range(4)] == ["let", name, "=", "loop"]:
+            if hit is not None:
+                raise ExtractError(f"N12: `let {name} = loop` occurs more than once")
+            hit = k
+    if hit is None:
+        raise ExtractError(f"N12: `let {name} = loop` not found")
+    ob = hit + 4
+    if pieces[si[ob]].text != "{":
+        raise ExtractError("N12: loop without block")
+    cb = _pmatch(pieces, si, ob, None)
+    if pieces[si[cb + 1]].text != ";":
+        raise ExtractError("N12: expected `;` after the loop")
+    line = pieces[si[hit]].line
+    # breaks belonging to this loop (not nested loops / closures)
+    edits = []
+    k = ob + 1
+    while k < cb:
+        t = pieces[si[k]]
+        if t.tkind == "ident" and t.text in ("loop", "while", "for"):
+            # skip nested loop body
+            j = k + 1
+            d = 0
+            while not (pieces[si[j]].text == "{" and d == 0):
+                if pieces[si[j]].text in "([":
+                    d += 1
+                elif pieces[si[j]].text in ")]":
+                    d -= 1
+                j += 1
+            k = _pmatch(pieces, si, j, None) + 1
+            continue
+        if t.tkind == "ident" and t.text == "break":
+            j = k + 1
+            d = 0
+            while j < cb:
+                x = pieces[si[j]]
+                if x.tkind == "punct" and x.text in OPEN:
+                    d += 1
+                elif x.tkind == "punct" and x.text in CLOSE:
+                    if d == 0:
+                        break
+                    d -= 1
+                elif d == 0 and x.text in (",", ";"):
+                    break
+                j += 1
+            if j == k + 1:
+                raise ExtractError("N12: `break` without value inside a value loop")
+            edits.append((k, j))
+            k = j
+            continue
+        k += 1
+    if not edits:
+        raise ExtractError("N12: no `break <value>` found")
+    # apply from the back
+    semi = si[cb + 1]
+    pieces[semi] = Piece(f" let {name} = __brk;", "rw", pieces[semi].line, rule="N12", tkind="rwtext")
+    for (k, j) in reversed(edits):
+        expr = "".join(pieces[x].text for x in range(si[k + 1], si[j - 1] + 1) if not pieces[x].dead)
+        bl = pieces[si[k]].line
+        kill(pieces, range(si[k], si[j - 1] + 1))
+        newp = [Piece(t.text, "rw", bl, rule="N12", tkind=t.kind) for t in lex("{ __brk = " + expr.strip() + "; break; }")]
+        pieces[si[k]:si[k] + 1] = newp
+        # indices after si[k] shifted; recompute si for earlier edits is unnecessary (we go backwards) but semi moved:
+    si = sig(pieces)
+    for k in range(len(si) - 4):
+        if [pieces[si[k + j]].text for j in range(4)] == ["let", name, "=", "loop"]:
+            l0 = pieces[si[k]].line
+            kill(pieces, range(si[k], si[k + 2] + 1))
+            newp = [Piece(t.text, "rw", l0, rule="N12", tkind=t.kind) for t in lex("let __brk; ")]
+            pieces[si[k]:si[k] + 1] = newp
+            break
+    # the rwtext piece must be lexable for later matching: split it
+    for i, pc in enumerate(pieces):
+        if pc.tkind == "rwtext" and not pc.dead:
+            pieces[i:i + 1] = [Piece(t.text, "rw", pc.line, rule=pc.rule, tkind=t.kind) for t in lex(pc.text)]
+            break
+    applied.add("N12", file, line, f"let {name} = loop {{ break E }} -> deferred initialisation, {len(edits)} break(s)")
+
+
 def name_return(pieces, file):
     """`-> T` => `-> (r: T)` in the signature of a fn item"""
     si = sig(pieces)
@@ -702,6 +785,9 @@ class Generator:
                             unq = lambda x: x.replace('\\"', '"').replace("\\\\", "\\")
                             opts["rewrites"].append((m.group(1), unq(m.group(2)), unq(m.group(3)), m.group(4) or "1"))
                             cur = None
+                        elif d.startswith("n12 "):
+                            opts.setdefault("n12", []).append(d[4:].strip())
+                            cur = None
                         elif d == "trusted":
                             opts["trusted"] = True
                             cur = None
@@ -772,6 +858,8 @@ class Generator:
             n2_logging(pieces, file, self.applied)
         for (rule, pat, rep, count) in opts["rewrites"]:
             apply_rewrite(pieces, rule, pat, rep, count, file, self.applied)
+        for nm in opts.get("n12", []):
+            n12_break_value(pieces, nm, file, self.applied)
         inj = {}   # piece index -> list of (position 'before'|'after', text, clause info)
 
         def add_inj(idx, pos, block_lines, default_id):
